@@ -14,10 +14,17 @@ import (
 	. "verifharness/common"
 )
 
+// sorted: the elements in ascending order, each once (an account map has no validator twice)
 func sorted(xs []uint64) []uint64 {
 	out := append([]uint64{}, xs...)
 	sort.Slice(out, func(i, j int) bool { return out[i] < out[j] })
-	return out
+	uniq := out[:0]
+	for i, x := range out {
+		if i == 0 || x != out[i-1] {
+			uniq = append(uniq, x)
+		}
+	}
+	return uniq
 }
 
 func goodData(r *Rand, spe, slot uint64) Data {
